@@ -127,6 +127,10 @@ def run_chunk(exe, mode, focus, a, b, want_shapes):
     guard = 0
     while cur < b and guard < 64:
         guard += 1
+        if len(out["crashes"]) >= 6:
+            # a tree on which workers keep dying is broken beyond doubt: do not spend a process per seed on it
+            out["abandoned"] = b - cur
+            break
         cmd = [exe, "--mode", mode, "--focus", str(focus), "--seeds", "%d:%d" % (cur, b)]
         if want_shapes:
             cmd.append("--shapes")
